@@ -12,7 +12,7 @@ use std::panic::{self, AssertUnwindSafe};
 use std::process::ExitCode;
 use std::ptr::NonNull;
 
-use naijascript::arena::{self, Arena, ScratchArena, scratch_arena};
+use naijascript::arena::{self, Arena, ArenaString, ScratchArena, scratch_arena};
 use naijascript::diagnostics::{Diagnostics, Severity};
 use naijascript::helpers::MEBI;
 use naijascript::resolver::Resolver;
@@ -363,11 +363,11 @@ fn aref(h: &Handle) -> &'static Arena {
     unsafe { &*std::ptr::from_ref(a) }
 }
 
-fn scripted_run_source(script: &[Ev], cap: usize, src: &str, filename: &str) -> String {
+fn scripted_run_source(script: &[Ev], cap: usize, src: &str, filename: &str, src_in_arena: bool) -> String {
     if let Err(err) = arena::init(cap) {
         return format!("Failed to initialize arena: {err}");
     }
-    let src: &'static str = unsafe { &*std::ptr::from_ref(src) };
+    let mut src: &'static str = unsafe { &*std::ptr::from_ref(src) };
     let mut handles: Vec<Handle> = Vec::new();
     let mut stack: Vec<usize> = Vec::new();
     let mut root = None;
@@ -393,6 +393,17 @@ fn scripted_run_source(script: &[Ev], cap: usize, src: &str, filename: &str) -> 
             }
             Ev::Parse(h) => {
                 let arena = aref(&handles[h]);
+                if src_in_arena {
+                    // cmd.rs run_stdin: the script text is the first thing allocated in the
+                    // persistent scratch arena (a Vec filled block by block), so in every run of
+                    // the process it sits at the same address
+                    let mut buf: Vec<u8, &Arena> = Vec::new_in(arena);
+                    for chunk in src.as_bytes().chunks(8192) {
+                        buf.extend_from_slice(chunk);
+                    }
+                    let text = Box::leak(Box::new(unsafe { ArenaString::from_utf8_unchecked(buf) }));
+                    src = unsafe { &*std::ptr::from_ref(text.as_str()) };
+                }
                 let lexer = Lexer::new(src, arena);
                 let parser = Box::leak(Box::new(Parser::new(lexer, arena)));
                 let (r, err) = parser.parse_program();
@@ -452,12 +463,16 @@ fn scratch_probe() -> (usize, usize, usize, usize) {
     (a.offset(), a.verif_commit(), b.offset(), b.verif_commit())
 }
 
-fn wasm_one(id: &str, src: &str, cap: &str, output: &str, script: Option<&(usize, Vec<Ev>)>) {
+fn wasm_one(id: &str, src: &str, cap: &str, output: &str, script: Option<&(usize, Vec<Ev>)>, src_in_arena: bool) {
     let c = Capture::begin(cap);
+    // As in the playground, the source is a heap string that lives for this one call: the
+    // allocator is free to hand the same block to the next run's text.
+    let owned: String = src.to_owned();
     let r = panic::catch_unwind(AssertUnwindSafe(|| match script {
-        Some((capacity, evs)) => scripted_run_source(evs, *capacity, src, "playground.ns"),
-        None => wasm_run_source(src, "playground.ns"),
+        Some((capacity, evs)) => scripted_run_source(evs, *capacity, &owned, "playground.ns", src_in_arena),
+        None => wasm_run_source(&owned, "playground.ns"),
     }));
+    drop(owned);
     let printed = c.end();
     let rec = match r {
         Ok(s) => {
@@ -494,6 +509,7 @@ fn wasm_mode(input: &str, output: &str) -> ExitCode {
     append(output, "");
     let mut seqs: Vec<(String, Vec<(String, String)>)> = Vec::new();
     let mut script: Option<(usize, Vec<Ev>)> = None;
+    let mut src_in_arena = false;
     for line in text.lines() {
         let t: Vec<&str> = line.split_whitespace().collect();
         if t.is_empty() {
@@ -502,6 +518,10 @@ fn wasm_mode(input: &str, output: &str) -> ExitCode {
         if t[0] == "W" {
             // W <capacity> <script words>: run the scripted replica instead of the literal copy
             script = Some((t[1].parse().unwrap(), parse_script(&t[2..])));
+        } else if t[0] == "M" {
+            // M arena: the script text is copied into the persistent scratch arena first (the
+            // `naija -` pattern); M heap (default): a heap string per call (the playground pattern)
+            src_in_arena = t[1] == "arena";
         } else if t[0] == "S" {
             seqs.push((t[1].to_string(), Vec::new()));
         } else if t[0] == "P" && t.len() >= 3 {
@@ -513,7 +533,7 @@ fn wasm_mode(input: &str, output: &str) -> ExitCode {
         let died = in_child(|| {
             for (id, src) in progs {
                 unsafe { libc::alarm(child_seconds()) };
-                wasm_one(id, src, &cap, output, script.as_ref());
+                wasm_one(id, src, &cap, output, script.as_ref(), src_in_arena);
             }
         });
         if let Some(why) = died {
